@@ -39,7 +39,7 @@ PROFILES = {
     "strings": dict(p_string_trailing_neg=0.3, p_trailing_neg=0.2, w_string=9, w_struct=4, w_unit=1, w_char=2, w_extern=4, w_alias=1, w_enum=1, p_fields_in_string=0.3, p_noskip=0.5, p_insens=0.3, p_ws_lit=0.1,
                     p_position=0.35, p_single_lit_string=0.3, nrules=(3, 7)),
     "memo": dict(p_include=0.3, p_noskip=0.4, p_shared_prefix=0.35, p_memo=0.5, p_lookahead=0.2, nrules=(3, 7), p_check=0.3, p_ccheck=0.2, w_extern=4, w_char=2),
-    "memofail": dict(p_shared_prefix=0.5, w_alias=3, p_memo=1.0, p_probe=0.7, p_lookahead=0.15, w_extern=1, nrules=(3, 6), p_check=0.35, p_ccheck=0.2, w_char=2),
+    "memofail": dict(p_shared_prefix=0.5, w_alias=3, p_memo=1.0, p_probe=0.7, p_lookahead=0.15, w_extern=3, nrules=(3, 6), p_check=0.35, p_ccheck=0.2, w_char=2),
     "dupfields": dict(p_rebind_shape=0.2, p_nested_field_closure=0.4, nrules=(2, 4), depth=4, small_fieldpool=3, p_multitype=0.85, w_struct=8, w_string=3, w_unit=0, w_alias=0,
                       w_enum=0, w_char=1, p_include=0.15, p_lookahead=0.03, p_noskip=0.1, dense_fields=True),
     "leftrec": dict(leftrec=1.0, p_memo=0.1, p_position=0.3, p_check=0.4, p_probe=0.5),
@@ -676,6 +676,12 @@ class Gen:
             return Grp(self.cho(depth - 1, mode, consumed))
         if x < 0.84 + p["p_lookahead"]:
             inner = self.part(depth - 1, "none", consumed)
+            if self.coin(0.3):
+                # a lookahead over several tokens: its body can get some way into the input before it fails
+                toks = [self.lit_nonempty() if self.coin(0.6) else self.rng() for _ in range(self.r.randint(2, 3))]
+                if self.coin(0.3):
+                    toks[0] = Ref(self.r.choice(self.targets(consumed, False) or ["char"]))
+                inner = Grp(Cho([Seq(toks)]))
             if isinstance(inner, Ref) and inner.rule not in ("Whitespace",) and self.coin(0.4):
                 # peek, then parse: the rule is first tried inside a lookahead and then for real at the same position
                 real = Ref(inner.rule, self.r.choice(self.fieldpool), inner.rule != "char" and self.index.get(inner.rule, 99) <= self.cur_i) if (mode == "named" and self.coin(0.7)) else Ref(inner.rule)
